@@ -162,6 +162,10 @@ type Wire struct {
 	AggID []uint8
 	PS    [][]byte
 	IS    [][]byte
+	// PSTail[j]: octets appended to the decoded public share VALUE handed to
+	// aggregator j's PrepInit (PublicShare is a byte-slice type: a caller can
+	// hand over a longer one without passing through the decoder).
+	PSTail [][]byte
 	// PrepShareEdit alters the prep share sent by aggregator j.
 	PrepShareEdit func(j int, b []byte) []byte
 	// PrepMsgEdit alters the prep message delivered to aggregator j.
@@ -179,6 +183,9 @@ func (w *Wire) Clone() *Wire {
 	for _, b := range w.IS {
 		c.IS = append(c.IS, cloneNN(b))
 	}
+	for _, b := range w.PSTail {
+		c.PSTail = append(c.PSTail, append([]byte(nil), b...))
+	}
 	return c
 }
 
@@ -193,11 +200,16 @@ func (w *Wire) same(o *Wire) bool {
 			return false
 		}
 	}
-	return w.PrepMsgEdit == nil && w.PrepShareEdit == nil && o.PrepMsgEdit == nil && o.PrepShareEdit == nil
+	return w.PrepMsgEdit == nil && w.PrepShareEdit == nil && o.PrepMsgEdit == nil && o.PrepShareEdit == nil && w.PSTail == nil && o.PSTail == nil
 }
 
 func (w *Wire) dump() map[string]any {
 	d := map[string]any{}
+	for j, b := range w.PSTail {
+		if len(b) > 0 {
+			d[fmt.Sprintf("agg%d.public_share_value_tail", j)] = lib.Hex(b)
+		}
+	}
 	for j := range w.IS {
 		d[fmt.Sprintf("agg%d.input_share", j)] = lib.Hex(w.IS[j])
 		d[fmt.Sprintf("agg%d.public_share", j)] = lib.Hex(w.PS[j])
@@ -280,6 +292,9 @@ func (in *Inst[M, A, V, E]) Run(w *Wire) *Outcome {
 			stop(j, "decode-public-share", err)
 			failed = true
 			continue
+		}
+		if j < len(w.PSTail) && len(w.PSTail[j]) > 0 {
+			ps = append(ps[:len(ps):len(ps)], w.PSTail[j]...)
 		}
 		var is prio3.InputShare[V, E]
 		// the wire buffer is overwritten as soon as the share is decoded (an
@@ -998,6 +1013,21 @@ func (in *Inst[M, A, V, E]) Alterations(r *lib.Rng, hw *Wire) []Alt {
 		})
 		add("public-share:truncated", true, -1, func(w *Wire) { w.PS[one] = w.PS[one][:len(w.PS[one])-1] })
 		add("public-share:extended", true, -1, func(w *Wire) { w.PS[one] = append(w.PS[one], 0) })
+		// the typed value handed to PrepInit is longer than the decoder would
+		// ever deliver (for one aggregator, for all of them)
+		for _, extra := range []int{1, 32} {
+			tail := r.Bytes(extra)
+			add(fmt.Sprintf("public-share-value:one-aggregator:extended-by-%d-octets", extra), true, -1, func(w *Wire) {
+				w.PSTail = make([][]byte, n)
+				w.PSTail[one] = tail
+			})
+			add(fmt.Sprintf("public-share-value:all-aggregators:extended-by-%d-octets", extra), true, -1, func(w *Wire) {
+				w.PSTail = make([][]byte, n)
+				for j := range w.PSTail {
+					w.PSTail[j] = tail
+				}
+			})
+		}
 	} else {
 		one := r.Intn(n)
 		add("public-share:extended", true, -1, func(w *Wire) { w.PS[one] = append(w.PS[one], byte(r.Intn(256))) })
